@@ -95,6 +95,18 @@ def gen_cases(rng, tier):
     for i in range(n // 10):
         calls = [[g0.boolean(rng.choice([0, 1, 2])) for _ in range(rng.choice([1, 1, 2, 3]))] for _ in range(rng.choice([1, 1, 2]))]
         out.append({"kind": "agg", "func": rng.choice(["SUM", "COUNT", "MAX", "MIN"]), "t": g0.num(rng.choice([0, 1, 2])), "filters": calls})
+    # ValueWrapper(<term>) as an operand (implementation-side, engine-judged; see judge_wrapped)
+    out += wrapped_fixed()
+    gw = tf.Gen(rng, p_alias=0.0, p_table=0.0, hostile=0.0, with_sub=False, p_crit=0.05)
+    k = 0
+    while k < n // 6:
+        try:
+            w = _wrap_somewhere(rng, gw.num(rng.choice([2, 3])))
+        except NotJudged:
+            w = None
+        k += 1
+        if w is not None and _has_wrapper(w):
+            out.append({"kind": "wrap", "t": w})
     return out
 
 
@@ -221,6 +233,12 @@ def run_impl(case):
         if case["kind"] == "agg":
             text = _agg_text(case)
             return {"text": text, "judge": judge_agg(case, text)}
+        if case["kind"] == "wrap":
+            try:
+                text = _wrapped_text(case["t"])
+            except Exception as e:  # noqa
+                text = "!" + type(e).__name__
+            return {"text": text, "judge": judge_wrapped(case, text)}
         ops = case.get("form") == "ops"
         if case["kind"] == "ctx":
             text = tf.render_impl(case["t"], case["c"], ops=ops)
@@ -234,6 +252,8 @@ def run_impl(case):
 
 
 def to_coq(case, outcome):
+    if case["kind"] == "wrap":
+        return None     # ValueWrapper(<term>) is not a node of coq/Terms.v; judged by the oracle
     if case["kind"] == "agg":
         return None     # FILTER clauses are not in coq/Terms.v (C18 models their placement); judged by the oracle
     c = case_ctx(case)
@@ -408,6 +428,127 @@ def sem_differs(sh, ops=False, dia=None):
     if len(ref) != len(got):
         return "row counts differ"
     return None
+
+
+# ----------------------------------------------------------------------------------------------
+# wrapped operands: ValueWrapper(<term>) adds no text of its own (QueryBuilder.set builds it around every value, users
+# build it to give a term a value's interface); coq/Terms.v has no such node, so these cases are implementation-side
+# only (to_coq returns None, like the FILTER cases) and are judged by the engine oracle against the explicit text of
+# the tree WITHOUT the wrappers.  Found by a round-7 seeding agent on the unchanged tree (a*ValueWrapper(b+c) rendered
+# "a"*"b"+"c"); repaired in pypika (fix: ... wrapped term as an operand), recorded as fixed in findings.d/C02.json.
+# ----------------------------------------------------------------------------------------------
+def _build_wrapped(t, path=()):
+    """tf.build over arith / neg / basic nodes, with a ValueWrapper around every node whose key is ["w", inner]"""
+    from pypika import terms as T
+    from pypika import enums as E
+    k = t[0]
+    if k == "w":
+        return T.ValueWrapper(_build_wrapped(t[1]))
+    if k == "arith":
+        return T.ArithmeticExpression(getattr(E.Arithmetic, t[1]), _build_wrapped(t[2]), _build_wrapped(t[3]))
+    if k == "neg":
+        return T.Negative(_build_wrapped(t[1]))
+    if k == "basic":
+        return T.BasicCriterion(getattr(E.Equality, t[1]), _build_wrapped(t[2]), _build_wrapped(t[3]))
+    return tf.build(t)
+
+
+def _strip_wrappers(t):
+    k = t[0]
+    if k == "w":
+        return _strip_wrappers(t[1])
+    if k == "arith":
+        return ["arith", t[1], _strip_wrappers(t[2]), _strip_wrappers(t[3]), None]
+    if k == "neg":
+        return ["neg", _strip_wrappers(t[1])]
+    if k == "basic":
+        return ["basic", t[1], _strip_wrappers(t[2]), _strip_wrappers(t[3]), None]
+    return t
+
+
+def _shadow_wrapped(t):
+    k = t[0]
+    if k == "w":
+        return ["w", _shadow_wrapped(t[1])]
+    if k == "arith":
+        return ["arith", t[1], _shadow_wrapped(t[2]), _shadow_wrapped(t[3]), None]
+    if k == "neg":
+        return ["neg", _shadow_wrapped(t[1])]
+    if k == "basic":
+        return ["basic", t[1], _shadow_wrapped(t[2]), _shadow_wrapped(t[3]), None]
+    return shadow(t)
+
+
+def _wrapped_text(t):
+    return _build_wrapped(t).get_sql(quote_char='"', secondary_quote_char="'")
+
+
+def judge_wrapped(case, text):
+    if text.startswith("!"):
+        return {"verdict": "differs", "detail": "rendering raised %s" % text[1:], "class": "other", "node": ["wrapped-operand", "raises"], "min": case["t"]}
+    if has_comment_intro(text):
+        return {"verdict": "differs", "detail": "comment introducer in %r" % text, "class": "other", "node": ["wrapped-operand", "lexical"], "min": case["t"]}
+    try:
+        sw = _shadow_wrapped(case["t"])
+        ref_sql = explicit(_strip_wrappers(sw))
+        ptxt = _wrapped_text(sw)
+        ref = db().execute("SELECT %s FROM t" % ref_sql).fetchall()
+    except NotJudged as e:
+        return {"verdict": "not-judged", "why": str(e)}
+    except sqlite3.Error:
+        return {"verdict": "not-judged", "why": "reference rejected"}
+    try:
+        got = db().execute("SELECT %s FROM t" % ptxt).fetchall()
+    except sqlite3.Error as e:
+        return {"verdict": "differs", "detail": "engine rejects %r (%s) while the explicit text is accepted" % (ptxt, e),
+                "class": "other", "node": ["wrapped-operand", "rejected"], "min": case["t"]}
+    for (r,), (g_,) in zip(ref, got):
+        if not close(r, g_):
+            return {"verdict": "differs", "detail": "rows differ: pypika text %r gives %r, explicit text %r gives %r" % (ptxt, g_, ref_sql, r),
+                    "class": "other", "node": ["wrapped-operand", "structure"], "min": case["t"]}
+    # the wrappers add no text: the rendering must be the rendering of the tree without them
+    plain = tf.render_impl(_strip_wrappers(case["t"]), tf.STR_CTX)
+    if plain != text:
+        return {"verdict": "differs", "detail": "an un-aliased wrapper changes the text: %r vs %r without it" % (text, plain),
+                "class": "other", "node": ["wrapped-operand", "text"], "min": case["t"]}
+    return {"verdict": "same"}
+
+
+def _wrap_somewhere(rng, t, depth=0):
+    """the tree with a wrapper around some compound operands (and, rarely, leaves or a second wrapper)"""
+    k = t[0]
+    if k == "arith":
+        t = ["arith", t[1], _wrap_somewhere(rng, t[2], depth + 1), _wrap_somewhere(rng, t[3], depth + 1), None]
+    elif k == "neg":
+        t = ["neg", _wrap_somewhere(rng, t[1], depth + 1)]
+    elif k == "basic":
+        t = ["basic", t[1], _wrap_somewhere(rng, t[2], depth + 1), _wrap_somewhere(rng, t[3], depth + 1), None]
+    elif k not in ("field", "vali"):
+        raise NotJudged("outside the wrapped family")
+    if depth > 0 and rng.random() < (0.5 if k in ("arith", "neg", "basic") else 0.1):
+        t = ["w", t]
+        if rng.random() < 0.15:
+            t = ["w", t]
+    return t
+
+
+def _has_wrapper(t):
+    return t[0] == "w" or any(_has_wrapper(c) for c in t[1:] if isinstance(c, list) and c and isinstance(c[0], str))
+
+
+def wrapped_fixed():
+    W = lambda x: ["w", x]   # noqa: E731
+    ar = lambda o, l, r: ["arith", o, l, r, None]   # noqa: E731
+    out = []
+    for o in ARITH:
+        for o2 in ARITH:
+            out.append(ar(o, A, W(ar(o2, B_, C_))))
+            out.append(ar(o, W(ar(o2, A, B_)), C_))
+    out += [["neg", W(ar("add", A, B_))], ["neg", W(["neg", A])], ar("sub", A, W(["neg", B_])), ar("sub", A, W(["vali", -1, None])),
+            ar("add", A, W(["basic", "gt", B_, C_, None])), ar("mul", A, W(W(ar("add", B_, C_)))),
+            ["basic", "eq", W(["basic", "gt", A, B_, None]), C_, None], ar("mul", A, W(B_))]
+    return [{"kind": "wrap", "t": t} for t in out]
+
 
 
 def children(t):
@@ -638,6 +779,8 @@ def nontrivial_key(case):
     import json
     if case["kind"] == "agg":
         return json.dumps(case, sort_keys=True) if sum(len(c) for c in case["filters"]) >= 2 else None
+    if case["kind"] == "wrap":
+        return json.dumps(case, sort_keys=True)
     ops = sum(v for k, v in tf.kinds(case["t"]).items() if k in ("arith", "basic", "cplx", "neg", "not", "in", "between", "case", "func"))
     return json.dumps([case["t"], case_ctx(case)], sort_keys=True) if ops >= 2 else None
 
@@ -645,8 +788,8 @@ def nontrivial_key(case):
 def histogram(cases):
     h = {}
     for c in cases:
-        if c["kind"] == "agg":
-            h["kind=agg"] = h.get("kind=agg", 0) + 1
+        if c["kind"] in ("agg", "wrap"):
+            h["kind=" + c["kind"]] = h.get("kind=" + c["kind"], 0) + 1
             continue
         h["kind=" + c["kind"] + ("/" + c["pos"] if c["kind"] == "pos" else "")] = h.get("kind=" + c["kind"] + ("/" + c["pos"] if c["kind"] == "pos" else ""), 0) + 1
         for k, v in tf.kinds(c["t"]).items():
@@ -672,8 +815,9 @@ def targeted_search(rng, broken, mism_cases):
             out.append({"kind": "ctx", "t": ["cplx", b, p, ["cplx", b2, q_, r, None], None], "c": sc})
             out.append({"kind": "ctx", "t": ["not", ["cplx", b, p, q_, None], None], "c": sc})
     out += [{"kind": "ctx", "t": t, "c": sc} for t in under_not_probes()]
+    out += wrapped_fixed()
     for c in mism_cases:
-        if c["kind"] == "agg":
+        if c["kind"] in ("agg", "wrap"):
             continue
         stack = [c["t"]]
         while stack:
